@@ -6,9 +6,7 @@ package main
 
 import (
 	"fmt"
-	"os"
 	"reflect"
-	"runtime/pprof"
 	"slices"
 	"strconv"
 	"sync/atomic"
@@ -570,10 +568,6 @@ func eq(a, b []uint) bool { return slices.Equal(a, b) }
 
 func main() {
 	r := common.Start("C16", "model_checking")
-	if pf := os.Getenv("C16_PROF"); pf != "" {
-		f, _ := os.Create(pf)
-		pprof.StartCPUProfile(f)
-	}
 	cs := configs(r.Thorough())
 	var results []space.Result
 	walls := map[string]float64{}
@@ -582,9 +576,6 @@ func main() {
 	engine := map[string]string{}
 	for _, c := range cs {
 		c := c
-		if only := os.Getenv("C16_ONLY"); only != "" && only != c.name {
-			continue
-		}
 		sys := space.System{
 			Name:   c.name,
 			Starts: len(c.starts),
@@ -648,6 +639,5 @@ func main() {
 		"Cap() is only called, its value is used for signature classes and coverage, never asserted; Add/Remove of dsz.Bits return nothing, their effect is judged by the battery",
 		"no constructor exists: start states are zero values, differing initial capacities are produced with Grow",
 	)
-	pprof.StopCPUProfile()
 	r.Finish("states = distinct canonical dumps of the private state of both sets (cached length + word slice of A and of B, plus whether the two word arrays share memory); every transition is one real method call (or Clone + one mutation) compared with a map-set model — Add/Remove results, argument of a bulk operation untouched, clone and source independent — followed on both sets by the battery Len = cardinality (cached and counted), Contains on alphabet+neighbours+far values, membership unchanged by Cap, Iter (3 reading styles) = Range = All = sorted model with counts, early stop of Range/All after every k. Non-trivial = distinct states.")
 }
